@@ -15,6 +15,7 @@ RULE = (
     'distribution batch (all broadcastable pairs), call-time noise yes/no/tiny (0..1e-7), None entries in list noise, interleaved yes/no, seed); '
     'distinct = cell without seed; non-trivial iff the function distribution has non-zero off-diagonal covariance and R != 0'
     '; pass 5: every likelihood in training and in evaluation mode; multitask cells with points == tasks, batch == tasks and batched likelihoods on smaller-batch distributions'
+    '; pass 6: noise re-bound / re-initialised between two calls (property, noise-model attribute, initialize)'
 )
 REQUIRED = ["marginal_adds_R", "marginal_keeps_mean", "expected_log_prob", "log_marginal", "forward_scale", "list_memberwise", "monitor:marginal_calls"]
 ASSUMPTIONS = ["R is built from public parameter values only (noise, second_noise, task_noises, task_noise_covar)"]
